@@ -31,35 +31,24 @@ def check(run, only=None):
                 "extension, dot in a directory name, inline source) x 16 print forms (plain, explicit escape for 5 types, raw, values "
                 "marked safe for the same/another type, filtered, concatenated, literal, number, empty, escape|raw, conditional) x 13 "
                 "placements (top, if, else, for, for-else, block, inherited, included, embedded, embed override, capture, filter "
-                "section, macro); payload contains the characters significant in HTML/JS/CSS/URL; non-trivial = a payload is printed "
+                "section, macro); payloads: one with every character significant in HTML/JS/CSS/URL, one with only an apostrophe, one with only quotes, one with none; non-trivial = a payload is printed "
                 "below a construct or in a non-html template")
-    run.assumptions = ["escaped payloads are compared against the real escaper's output for that payload (escapers themselves: C13)",
+    run.assumptions = ["escaped payloads are expanded by TLC with the reference escapers of Escape.tla (css in the pinned 4-hex-digit format, see the C13 known finding)",
                        "results of captures/macros are re-printed with |raw (stick returns plain strings; statement judges the inner print)"]
     if only is not None:
         vecs = only
     else:
         r = common.run_tlc("C12", "C12_thorough" if run.tier == "thorough" else "C12", env={"VERIF_SEED": run.seed}, timeout=1800)
         vecs = r["lines"]
-    # 1. resolve the symbolic escaped segments with the real escapers
-    need = {}
-    for v in vecs:
-        for sg in segments(v["exp"]["out"]):
-            if sg[0] == "esc":
-                need[(sg[1], sg[2])] = None
-    ecases = [{"id": "e%d" % i, "k": "esc", "fn": fn, "in": list(pl)} for i, (fn, pl) in enumerate(need)]
-    eobs, _ = common.run_pool(ecases) if ecases else ({}, None)
-    for c in ecases:
-        o = eobs[c["id"]]
-        if o["st"] != "ok":
-            raise common.Infra("escaper failed on the payload: " + json.dumps(o)[:300])
-        need[(c["fn"], bytes(c["in"]))] = bytes(o["obs"]["out"])
+    # 1. the symbolic escaped segments were expanded by TLC with the REFERENCE escapers (exp.outc); the symbolic form is kept for display
     conc = []
     for v in vecs:
         segs = segments(v["exp"]["out"])
-        exp = b"".join(sg[1] if sg[0] == "lit" else need[(sg[1], sg[2])] for sg in segs)
+        exp = bytes(v["exp"]["outc"])
         v2 = dict(v)
         v2["exp"] = dict(v["exp"])
         v2["exp"]["out"] = list(exp)
+        v2["exp"].pop("outc", None)
         v2["symbolic"] = [[sg[0], common.show(sg[1])] if sg[0] == "lit" else [sg[0], sg[1], common.show(sg[2])] for sg in segs]
         conc.append(v2)
 
